@@ -242,6 +242,23 @@ add("C09", True, "fault_enumeration",
     "a fill).",
     "DESIGN.md section 5, C09")
 
+add("C14", True, "exploration",
+    "Hypothesis-generated machine states for the simulated SC&MP, "
+    "field-wise comparison of everything probed and derived",
+    "A generated machine state (dimensions, dead and silent chips, links, "
+    "core counts and states, free-memory/router figures, Ethernet details, "
+    "VCPU blocks, chained IOBUFs, router counters, both version encodings) "
+    "is installed in the simulated machine; get_system_info and every "
+    "individual probe are compared field by field with the state, the "
+    "SystemInfo helpers with set definitions, build_machine / "
+    "build_core_constraints / target lengths with the description "
+    "(reservations disjoint and covering exactly the non-idle cores), and a "
+    "placement+allocation on the derived model must avoid dead chips and "
+    "busy cores.",
+    "Trusted: vf/sim/scamp.py (info reply and P2P table layouts as "
+    "documented in rig's decoder comments and the SC&MP docs).",
+    "DESIGN.md section 5, C14")
+
 
 def main():
     checks = []
